@@ -278,7 +278,10 @@ def _first_gen(case):
 
 def known_length_longer(case, vio):
     """ArrayGenerator::generate_and_check accepts a generated array longer than the declared length"""
-    return _first_gen(case) == "long" and vio.get("bucket", "").startswith("unenforced:long|")
+    # ... and operations on such an array work with two different lengths (the declared one for len(), the real one for the data):
+    # kernels sized by one and indexed by the other die under the sanitizer (crash bucket of a history whose first generator is "long")
+    b = vio.get("bucket", "")
+    return _first_gen(case) == "long" and (b.startswith("unenforced:long|") or (b.startswith("crash:virtual|") and b.endswith("|long")))
 
 
 NOT_CONFORM = "generated array does not conform to expected form"
@@ -301,15 +304,15 @@ def known_bitmasked_range_form(case, vio):
 
 
 def known_nested_virtual_slice_form(case, vio):
-    """a VirtualArray with a declared form whose generated array contains further VirtualArray nodes passes generate_and_check (compatibility
+    """a VirtualArray with a declared (or, after a first generation, inferred) form whose generated array contains further VirtualArray nodes passes generate_and_check (compatibility
     check) but the form predicted for its lazy field / range slice assumes the nodes are not virtual (option/indexed simplification)"""
     text = _observed_text(vio)
     if not (case.get("part") == "virtual" and vio.get("bucket", "").startswith("errorclass:") and NOT_CONFORM in text):
         return False
     _, _, generated = text.partition("but generated:")
     paths = [tuple(w["path"]) for w in case["wraps"]]
-    nested_declared = any(w["declare_form"] and any(len(q) > len(w["path"]) and q[:len(w["path"])] == tuple(w["path"]) for q in paths) for w in case["wraps"])
-    return '"VirtualArray"' in generated and nested_declared
+    nested = any(any(len(q) > len(w["path"]) and q[:len(w["path"])] == tuple(w["path"]) for q in paths) for w in case["wraps"])
+    return '"VirtualArray"' in generated and nested
 
 
 KNOWN = {"virtual_generated_longer_than_declared": known_length_longer,
@@ -531,7 +534,8 @@ def _run_virtual(case, run):
         except GeneratorFailure:
             V.clear_pending()
         except ValueError:
-            if gk in BAD_GENERATORS and run.calls[0] > 0:
+            if gk in BAD_GENERATORS and sum(run.calls) > 0:
+                # the contradicting generator ran, or an enclosing wrapper's generator ran and its check met the contradicting declaration
                 return {"tags": ["part:virtual", "gen:" + gk, "mismatch_detected_at_construction"], "nontrivial": False}
             if gk == "long" and w0["path"] and run.calls[0] == 0:
                 # the declared length is shorter than the node it replaces: the enclosing node's constructor (which only sees
